@@ -6,6 +6,7 @@
 //! `run` writes one observation line per op line into --out, and the visit-order hints the model
 //! needs (hash-map iteration order cannot be predicted, only observed) into `<out>.hints`.
 mod ast;
+mod c14;
 mod c15;
 mod c15gen;
 
